@@ -82,6 +82,7 @@ ALSO_SERVES = {
     "C01": ["urwid/widget/scrollable.py:Scrollable.render", "urwid/widget/scrollable.py:Scrollable._adjust_trim_top", "urwid/widget/scrollable.py:ScrollBar.render"],
     "C07": ["module:contracts.C08_listbox",        # ListBox focus handling
             "module:contracts.C16_focuslist"],     # "insertions or deletions in the list": SimpleFocusListWalker is a MonitoredFocusList
+    "C20": ["urwid/canvas.py:cview_trim_top", "urwid/canvas.py:cview_trim_rows", "urwid/canvas.py:cview_trim_cols", "urwid/canvas.py:cview_trim_left"],  # the slice a Scrollable shows is cut with these
     "C10": ["module:contracts.C14_signals"],       # 'change' / 'postchange' are delivered by Signals.emit / _call_callback
     "C06": ["urwid/canvas.py:CompositeCanvas.trim#real-fields", "urwid/canvas.py:CompositeCanvas.trim_end#real-fields",
             # a cached (finalized) canvas refuses to be padded / trimmed, and padding a wrapper never writes to the lists it shares with the cached canvas
